@@ -229,7 +229,10 @@ class AnchorError(Exception):
 def callee_name(t):
     """Best display name of a call terminator's callee (resolved if available)."""
     f = t.get("f", {})
-    return f.get("rname") or f.get("name") or "<fnptr>"
+    rn = f.get("rname")
+    if rn and rn.startswith("rustybgp"):
+        return rn
+    return f.get("name") or rn or "<fnptr>"
 
 
 def callee_names(t):
